@@ -361,6 +361,19 @@ pub fn msg_type(n: u8) -> Option<TMessageType> {
     Some(match n { 1 => TMessageType::Call, 2 => TMessageType::Reply, 3 => TMessageType::Exception, 4 => TMessageType::OneWay, _ => return None })
 }
 
+/// the same envelope through the LinkedBytes-backed writer of the protocol (zero-copy on): bytes and reported length
+pub fn write_msg_linked(proto: Proto, name: &[u8], mt: u8, seq: i32) -> Result<(Vec<u8>, usize), ThriftException> {
+    let id = TMessageIdentifier::new(unsafe { faststr::FastStr::from_bytes_unchecked(Bytes::copy_from_slice(name)) }, msg_type(mt).unwrap(), seq);
+    let mut lb = LinkedBytes::new();
+    let len;
+    match proto {
+        Proto::Bin | Proto::UBin => { let mut p = TBinaryProtocol::new(&mut lb, true); len = p.message_begin_len(&id) + p.message_end_len(); p.write_message_begin(&id)?; p.write_message_end()?; }
+        Proto::Le => { let mut p = TBinaryLeProtocol::new(&mut lb, true); len = p.message_begin_len(&id) + p.message_end_len(); p.write_message_begin(&id)?; p.write_message_end()?; }
+        Proto::Cmp => { let mut p = TCompactOutputProtocol::new(&mut lb, true); len = p.message_begin_len(&id) + p.message_end_len(); p.write_message_begin(&id)?; p.write_message_end()?; }
+    }
+    Ok((lb_concat(&mut lb), len))
+}
+
 pub fn write_msg(proto: Proto, name: &[u8], mt: u8, seq: i32) -> Result<(Vec<u8>, usize), ThriftException> {
     let id = TMessageIdentifier::new(unsafe { faststr::FastStr::from_bytes_unchecked(Bytes::copy_from_slice(name)) }, msg_type(mt).unwrap(), seq);
     let mut b = BytesMut::new();
